@@ -26,8 +26,10 @@ class Ctx:
         self.solver_s = 0.0
         self.queries = 0
         self.eq_seen = set()
+        self.lt_terms = {}
         self.havocked = False
         self.fresh_mode = False
+        self.eq_is_incomparable = False
         self.val_syms = []
         self.awaits = []
 
@@ -163,6 +165,31 @@ class Ctx:
             return z3.sat
         return None
 
+    def mk_lt(self, a, b):
+        """lt(a,b) for user `<`: A7 - a strict weak order; asymmetry, irreflexivity and transitivity are supplied as
+        ground instances over the terms that are actually compared on this path"""
+        t = lt(a, b)
+        for x in (a, b):
+            k = x.sexpr()
+            if k not in self.lt_terms:
+                old = list(self.lt_terms.values())
+                self.lt_terms[k] = x
+                self.assume(z3.Not(lt(x, x)))
+                for y in old:
+                    self.assume(z3.Not(z3.And(lt(x, y), lt(y, x))))
+                if len(old) <= 7:
+                    allt = old + [x]
+                    for p in allt:
+                        for q in allt:
+                            for r in allt:
+                                if x is p or x is q or x is r:
+                                    if not (p is q or q is r or p is r):
+                                        self.assume(z3.Implies(z3.And(lt(p, q), lt(q, r)), lt(p, r)))
+                                        # incomparability is transitive as well (strict weak order)
+                                        self.assume(z3.Implies(z3.And(z3.Not(lt(p, q)), z3.Not(lt(q, p)), z3.Not(lt(q, r)), z3.Not(lt(r, q))),
+                                                               z3.And(z3.Not(lt(p, r)), z3.Not(lt(r, p)))))
+        return t
+
     def mk_eq(self, a, b):
         """eq(a,b) for user `==`: symmetric by construction, reflexive via instantiated axiom (A7)"""
         if a.sexpr() > b.sexpr():
@@ -174,6 +201,9 @@ class Ctx:
             # A7, ground instances: reflexive on identical objects, symmetric
             self.assume(z3.Implies(a == b, t))
             self.assume(t == eq(b, a))
+            if self.eq_is_incomparable:
+                # A7 for the sorted-input tools: `==` agrees with `<`-incomparability (total preorder)
+                self.assume(t == z3.And(z3.Not(lt(a, b)), z3.Not(lt(b, a))))
         return t
 
 
@@ -460,7 +490,25 @@ class Program:
         self.root, self.package, self.fallback = root, package, fallback
         self.modules = {}
 
+    STDLIB_DIR = None
+
+    @classmethod
+    def stdlib_dir(cls):
+        """Lib/ of the interpreter that runs the test-suite (pure-Python stdlib sources are interpreted from there)"""
+        if cls.STDLIB_DIR is None:
+            import subprocess
+            try:
+                out = subprocess.run(["/venv/bin/python", "-c", "import heapq, os; print(os.path.dirname(heapq.__file__))"],
+                                     capture_output=True, text=True, timeout=30).stdout.strip()
+            except Exception:
+                out = ""
+            cls.STDLIB_DIR = out or os.path.dirname(os.__file__)
+        return cls.STDLIB_DIR
+
     def module(self, modname):
+        if modname not in self.modules and modname.startswith("stdlib:"):
+            path = os.path.join(self.stdlib_dir(), modname[7:] + ".py")
+            self.modules[modname] = Module(self, modname, path)
         if modname not in self.modules:
             path = os.path.join(self.root, modname + ".py")
             if not os.path.exists(path) and self.fallback:
@@ -904,8 +952,9 @@ class Interp:
             sync = self.side != "impl"
         stop = "StopIteration" if sync else "StopAsyncIteration"
         if isinstance(it, Source):
-            if it.state in ("exhausted", "closed", "raised"):
-                # A5: re-polling a finished source is not an observable event
+            if it.state in ("exhausted", "raised") or (it.state == "closed" and (self.side == "impl" or it.ended)):
+                # A5: re-polling a finished source is not an observable event.  A source the IMPL has closed is
+                # still open from the reference's point of view: its further pulls are events (and mismatches)
                 self.ctx_repoll(it)
                 raise PyRaise(ExcVal(stop, ident="end"))
             resp = yield Ev("Pull", it, site=site)
@@ -964,8 +1013,9 @@ class Interp:
             raise PyRaise(ExcVal("AttributeError", ident="aclose"))
         yield Ev("AClose", src, site=site)
         src.closes += 1
-        if src.state not in ("exhausted",):
-            src.state = "closed"
+        if src.state in ("exhausted", "raised"):
+            src.ended = True
+        src.state = "closed" if src.state != "exhausted" else "exhausted"
         return None
 
     def await_(self, aw, site=None):
@@ -1164,6 +1214,8 @@ class Interp:
         if isinstance(o, Coroutine):
             if name == "__await__":
                 return CoroAwaitMethod(o)
+        if isinstance(o, SrcMethod) and name == "__self__":
+            return o.src
         if isinstance(o, Slice3):
             return getattr(o, name)
         if isinstance(o, Opaque):
@@ -1904,6 +1956,22 @@ class Frame:
             raise PyRaise(resp[1])
         return resp[1]
 
+    def e_YieldFrom(self, e):
+        it = yield from self.ev(e.value)
+        if isinstance(it, SrcMethod):
+            it = it.src
+        stop = "StopAsyncIteration" if (self.gen is not None and self.gen.is_async) else "StopIteration"
+        while True:
+            try:
+                v = yield from self.i.pull(it, site_of(e), sync=True)
+            except PyRaise as pr:
+                if pr.exc.cls == "StopIteration":
+                    return None
+                raise
+            resp = yield Ev("GenYield", self.gen, v, site=site_of(e))
+            if resp is not None and resp[0] == "throw":
+                raise PyRaise(resp[1])
+
     def e_UnaryOp(self, e):
         v = yield from self.ev(e.operand)
         if isinstance(e.op, ast.Not):
@@ -1996,7 +2064,7 @@ class Frame:
         if isinstance(l, (int, bool)) and isinstance(r, (int, bool)) and not isinstance(op, (ast.Div,)):
             import operator
             f = {ast.Add: operator.add, ast.Sub: operator.sub, ast.Mult: operator.mul, ast.Mod: operator.mod,
-                 ast.FloorDiv: operator.floordiv}.get(type(op))
+                 ast.FloorDiv: operator.floordiv, ast.RShift: operator.rshift, ast.LShift: operator.lshift}.get(type(op))
             if f is None:
                 raise Unsupported("int op")
             if isinstance(op, (ast.Mod, ast.FloorDiv)) and r == 0:
